@@ -129,8 +129,6 @@ JUMP_NAMES = (
     "JUMP_FORWARD",
     "JUMP_BACKWARD",
     "JUMP_BACKWARD_NO_INTERRUPT",
-    "BEFORE_WITH",
-    "BEFORE_ASYNC_WITH",
 )
 
 
